@@ -31,22 +31,27 @@ CLAIMED = {
    technique="Coq proofs about digest models and signature opcodes + differential correspondence incl. verification-call arguments (ld --wrap) with independently signed spends",
    ref="DESIGN.md §2 C02"),
  "C12": dict(
-   text="Theorems (Properties/C12.v): every operation line of the listing carries its own index as number and headers occupy an index; nothing is "
-        "marked past the end. NOT yet proved: the marker invariant over sessions (C12_marker_designates_next_operation: in every reachable state "
-        "the marked line is the rendering of the operation at pc or the header of the section entered next) - decided by correspondence: the real "
-        "interactive btcdeb driven through a pty (print after every step/rewind; plain scripts, scriptPubKey and P2SH sections, P2WSH, taproot "
-        "key path, tapscript with control paths 0..2) vs the model's listing and marked line, the step/rewind echo, and - on the implementation "
-        "alone - the marked line vs the operation at the program counter reported by the harness.",
-   note=TB + "tools/ptyrun.py (pty driver, print parser) is trusted. Known finding F37 (after a FAILED step pc and marker disagree).",
-   technique="Coq proofs about listing numbering + pty-driven differential correspondence of listing, marker and echo",
+   text="Theorems (Properties/C12.v) for sessions over one script (btcdeb <script> [stack...]), any script / stack / flags / version: the listing "
+        "main() builds is the exact decoding of the script in execution order with line number = position; in EVERY state reached by successful "
+        "steps from the start (induction over the step sequence; rewinds return to such states by C04) the position counter counts the operations "
+        "before the program counter, so the marked line is the numbered rendering of the operation the next step fetches, and after the last "
+        "operation nothing is marked. NOT proved: the same invariant across scriptPubKey / P2SH / taproot-commitment sections "
+        "(C12_marker_multi_section) - decided by correspondence: the real interactive btcdeb driven through a pty (print after every step/rewind; "
+        "plain scripts, scriptPubKey and P2SH sections, P2WSH, taproot key path, tapscript with control paths 0..2) vs the model's listing and marked "
+        "line, the step/rewind echo, and - on the implementation alone - the marked line vs the operation at the program counter reported by the harness.",
+   note=TB + "tools/ptyrun.py (pty driver, print parser) is trusted. Known finding F37 (after a FAILED step pc and marker disagree; the theorems are about successful steps).",
+   technique="Coq proof of the marker invariant by induction over steps (single-script sessions) + pty-driven differential correspondence of listing, marker and echo",
    ref="DESIGN.md §2 C12"),
  "C15": dict(
-   text="Theorem (Properties/C15.v): session configuration never indexes outside the funding transaction once input selection succeeded (the "
-        "model's only configuration crash outcome is unreachable). Memory safety itself is not expressible in the executable model: the runtime "
-        "part rebuilds the tree with AddressSanitizer+UndefinedBehaviorSanitizer and runs the inputs of every other property plus structure-aware "
-        "mutations through the harness, fuzzes the command lines of btcc/tap/btcdeb (pipes and pty) and interactive command sequences; thorough adds "
-        "valgrind memcheck. Any signal, sanitizer report, failed assertion or uncaught exception is a violation with the input as replay.",
-   note=TB + "PARTIAL by nature: the theorem covers the model's explicit crash outcomes only; out-of-bounds / use-after-free / uninitialised reads are decided by sanitizer runs (testing, not proof) as the brief allows for runtime behaviour.",
+   text="Theorems (Properties/C15.v): one interpreter step - any opcode, stack, flags, script version, in the script or through exec - never yields "
+        "one of the model's crash outcomes (failed assertion incl. the default branches of the numeric and extended-opcode switches, dangling script "
+        "iterator, division by zero, undefined shift, signed overflow) from an environment whose pbegincodehash is live and whose tapscript weight "
+        "is initialised; sessions start in such an environment; session configuration never indexes outside the funding transaction once input "
+        "selection succeeded. Memory safety itself is not expressible in the executable model: the runtime part rebuilds the tree with "
+        "AddressSanitizer+UndefinedBehaviorSanitizer and runs the inputs of every other property plus structure-aware mutations through the harness, "
+        "fuzzes the command lines of btcc/tap/btcdeb (pipes and pty) and interactive command sequences; thorough adds valgrind memcheck. Any signal, "
+        "sanitizer report, failed assertion or uncaught exception is a violation with the input as replay.",
+   note=TB + "PARTIAL by nature: the theorems cover the model's explicit crash outcomes (preservation of the 'safe' environment across steps is not yet proved); out-of-bounds / use-after-free / uninitialised reads are decided by sanitizer runs (testing, not proof) as the brief allows for runtime behaviour.",
    technique="Coq proof of crash-outcome unreachability in the model + sanitizer/valgrind execution of generated and mutated inputs",
    ref="DESIGN.md §2 C15"),
  "C11": dict(
